@@ -48,5 +48,28 @@ func corpusDocs() []*Doc {
 	}
 	// fixed 5d2802b: running() inline with block children
 	out = append(out, mk(nil, &Node{Tag: "span", Style: []Decl{{Name: "position", Value: "running(h)"}}, Kids: []*Node{{Tag: "div", Kids: []*Node{{Tag: "span"}}}}}))
+	// fixed (series applied as 1f56c31 and parents): columns after a float, root var() invalid at computed-value
+	// time, infinite widths in shortTextHint, @page :nth(of), @font-face src:format(, attr(x url),
+	// counter at MaxInt64, <col span=4294967296> (fatal out of memory), cyclic counter at 0
+	raw := func(hints bool, html string) *Doc {
+		d := mk(nil, &Node{Tag: "#raw", Text: html})
+		d.Hints = hints
+		return d
+	}
+	out = append(out,
+		raw(false, `<p style="float:left"></p><div style="column-count:3">a</div>`),
+		mk([]*Rule{{Prelude: "html", Decls: []Decl{{Name: "color", Value: "translate(var(--v3))"}}}}, p(nil, "a")),
+		mk([]*Rule{{Prelude: "html, body", Decls: []Decl{{Name: "line-height", Value: "var(--v3, block)"}}}}, p(nil, "a")),
+		raw(false, `<table><td><br><svg height="3cm" viewBox="0 0 1e9 1e-9"></svg></td></table>`),
+		raw(true, `<table cellspacing="-99999999999999999999"><td>x</td></table>`),
+		raw(true, `<table width="99999999999999999999"><td>x y</td></table>`),
+		mk([]*Rule{{Raw: "@page :nth(of){size:100px}"}}, p(nil, "a")),
+		mk([]*Rule{{Raw: "@font-face{src:format(}"}}, p(nil, "a")),
+		mk([]*Rule{{Prelude: "p::before", Decls: []Decl{{Name: "content", Value: "attr(v url)"}}}}, &Node{Tag: "p", Attrs: []Attr{{K: "v", V: "x"}}, Kids: []*Node{{Text: "a"}}}),
+		raw(true, `<ol><li value="9223372036854775807">a<li>b</ol>`),
+		raw(true, `<ol start="9223372036854775807"><li>a<li>b</ol>`),
+		raw(false, `<table><col span="4294967296"><tr><td>a</td></tr></table>`),
+		mk([]*Rule{{Prelude: "p::before", Decls: []Decl{{Name: "content", Value: "counter(d, symbols(cyclic 'a' 'b'))"}}}}, p(nil, "a")),
+	)
 	return out
 }
